@@ -112,6 +112,15 @@ func (a *GsfaWriter) fullBufferWriter() {
 			klog.Infof("remaining %d buffers to flush", len(a.fullBufferWriterChan))
 		}
 		if a.exiting.Load() && len(a.fullBufferWriterChan) == 0 {
+			// write the full batches that are still parked here; they would be lost otherwise
+			for _, buf := range tmpBuf {
+				if len(buf.Values) == 0 {
+					continue
+				}
+				if err := a.flushKVs(buf); err != nil {
+					klog.Errorf("Error while flushing transactions for key %s: %v", buf.Key, err)
+				}
+			}
 			a.fullBufferWriterDone <- struct{}{}
 			return // exit
 		}
@@ -230,13 +239,15 @@ const itemsPerBatch = 1000
 func (a *GsfaWriter) Close() error {
 	a.mu.Lock()
 	defer a.mu.Unlock()
+	// first let the background writer finish the full batches (they are older than what is still accumulated),
+	// then write the remainders, so that each address is read back newest first
+	a.exiting.Store(true)
+	klog.Info("Closing full buffer writer...")
+	<-a.fullBufferWriterDone
 	if err := a.flushAccum(a.accum); err != nil {
 		return err
 	}
-	a.exiting.Store(true)
 	klog.Info("Closing linked log...")
-	<-a.fullBufferWriterDone
-	klog.Info("Closing full buffer writer...")
 	a.cancel()
 	{
 		{
